@@ -428,6 +428,13 @@ where %v like ?
 
 	outhdrs := []*config.Header{}
 	for _, hdr := range headers {
+		// The depth expression strips every occurrence of the prefix and `like` treats `_` and `%` as wildcards, so make sure this really is a direct child
+		if prefix != "" {
+			if !strings.HasPrefix(hdr.Name, prefix) || strings.Contains(strings.TrimSuffix(strings.TrimPrefix(hdr.Name, prefix), "/"), "/") {
+				continue
+			}
+		}
+
 		prefix := strings.TrimSuffix(hdr.Name, "/")
 		if name != prefix && name != prefix+"/" {
 			outhdrs = append(outhdrs, hdr)
